@@ -4,7 +4,7 @@ from collections import defaultdict
 from hypothesis import strategies as st
 
 from pbt import build, gens, oracles as O
-from pbt.common import read_views, bipartite_match
+from pbt.common import read_views, bipartite_match, build_input
 from pbt.runner import Outcome
 
 ID = "C05"
@@ -69,10 +69,10 @@ def check(case):
     out = Outcome()
     steps = case["steps"]
     smax = max(steps)
-    seq = build.sequence(case["seq"])
-    ev0, d0 = O.seq_events(seq)
-    notes0, an0 = O.notes(ev0)
-    assert not an0 and not O.overlaps(notes0), (an0, notes0)
+    built = build_input(out, case["seq"])
+    if built is None:
+        return out
+    seq, ev0, d0, notes0 = built
     by_key0 = defaultdict(list)
     for n in notes0:
         by_key0[(n[0], n[1])].append(n)
